@@ -578,13 +578,12 @@ def _mk_gate(origin, delta0, order_seed, menu="planned"):
 _LB = {}
 
 
-def _lb_init(fargs):
-    _LB["model"] = _mk_gate(*fargs)
-
-
-def _lb_expand(chunk):
+def _lb_expand(job):
     import pickle
-    model = _LB["model"]
+    fargs, chunk = job
+    if fargs not in _LB:
+        _LB[fargs] = _mk_gate(*fargs)
+    model = _LB[fargs]
     out, viol, outcomes = [], [], set()
     trans = xchecks = pruned = 0
     local = set()
@@ -623,7 +622,20 @@ def _lb_expand(chunk):
     return out, viol, outcomes, trans, xchecks, pruned
 
 
-def level_bfs(fargs, max_depth, pool_procs=16):
+def level_bfs(fargs, max_depth, pool=None, pool_procs=16):
+    import pickle
+    own = pool is None
+    if own:
+        pool = mp.Pool(pool_procs)
+    try:
+        return _level_bfs(fargs, max_depth, pool, pool_procs)
+    finally:
+        if own:
+            pool.close()
+            pool.join()
+
+
+def _level_bfs(fargs, max_depth, pool, pool_procs):
     import pickle
     model = _mk_gate(*fargs)
     res = X.Result()
@@ -631,29 +643,28 @@ def level_bfs(fargs, max_depth, pool_procs=16):
     k0 = X._h(model.canon(w0))
     res.hashes.add(k0)
     frontier = [(pickle.dumps(w0, protocol=pickle.HIGHEST_PROTOCOL), ())]
-    with mp.Pool(pool_procs, initializer=_lb_init, initargs=(fargs,)) as pool:
-        for depth in range(max_depth):
-            if not frontier:
-                break
-            frontier.sort(key=lambda x: x[1])            # order of work is irrelevant for the result; keep chunks reproducible
-            n = max(1, min(len(frontier), pool_procs * 6))
-            chunks = [frontier[i::n] for i in range(n)]
-            nxt_frontier = []
-            for out, viol, outcomes, trans, xc, pruned in pool.imap_unordered(_lb_expand, chunks):
-                res.transitions += trans
-                res.xchecks += xc
-                res.pruned += pruned
-                res.outcomes |= outcomes
-                res.violations.extend(viol[:max(0, 1000 - len(res.violations))])
-                for k, blob, nh in out:
-                    if k in res.hashes:
-                        continue
-                    res.hashes.add(k)
-                    nxt_frontier.append((blob, nh))
-            res.depth_hist[depth + 1] = len(nxt_frontier)
-            if nxt_frontier:
-                res.max_depth = depth + 1
-            frontier = nxt_frontier
+    for depth in range(max_depth):
+        if not frontier:
+            break
+        frontier.sort(key=lambda x: x[1])            # order of work is irrelevant for the result; keep chunks reproducible
+        n = max(1, min(len(frontier), pool_procs * 6))
+        chunks = [frontier[i::n] for i in range(n)]
+        nxt_frontier = []
+        for out, viol, outcomes, trans, xc, pruned in pool.imap_unordered(_lb_expand, [(fargs, c) for c in chunks]):
+            res.transitions += trans
+            res.xchecks += xc
+            res.pruned += pruned
+            res.outcomes |= outcomes
+            res.violations.extend(viol[:max(0, 1000 - len(res.violations))])
+            for k, blob, nh in out:
+                if k in res.hashes:
+                    continue
+                res.hashes.add(k)
+                nxt_frontier.append((blob, nh))
+        res.depth_hist[depth + 1] = len(nxt_frontier)
+        if nxt_frontier:
+            res.max_depth = depth + 1
+        frontier = nxt_frontier
     if frontier:
         res.complete = False
         res.cap_hit = f"depth {max_depth}"
@@ -662,7 +673,7 @@ def level_bfs(fargs, max_depth, pool_procs=16):
     return res
 
 
-def gate_part(ctx, seed, runs):
+def gate_part(ctx, seed, runs, pool):
     """runs: list of (label, origin, menu, depth)."""
     tot_states = tot_trans = xchecks = 0
     outcomes = set()
@@ -675,13 +686,13 @@ def gate_part(ctx, seed, runs):
         if menu == "planned":
             r = X.bfs(_mk_gate(*fargs), depth, xcheck_every=97)
         else:
-            r = level_bfs(fargs, depth)
+            r = level_bfs(fargs, depth, pool)
         tot_states += r.states
         tot_trans += r.transitions
         xchecks += r.xchecks
         outcomes |= {(menu, o) for o in r.outcomes}
         digests.append((label, r.digest()))
-        samples.extend(r.samples[:1])
+        samples.extend(dict(part=label, history=h) for h in r.samples[:1])
         if r.cap_hit:
             caps.append((label, r.cap_hit))
         if not r.complete and not str(r.cap_hit).startswith("depth"):
@@ -704,18 +715,22 @@ def run(ctx):
     thorough = ctx.tier == "thorough"
     rng = _random.Random(ctx.seed)
     s1, t1, tr1, o1, smp1, d1 = reactive_part(ctx, rng)
+    if thorough:
+        runs = [("gate_planned", 0.0, "planned", 24), ("gate_planned_origin_64", 64.0, "planned", 24),
+                ("gate_wide", 0.0, "wide", 11), ("gate_wide_origin_64", 64.0, "wide", 8)]
+    else:
+        runs = [("gate_planned", 0.0, "planned", 18), ("gate_wide", 0.0, "wide", 7)]
+    import gc
+    gc.collect()
+    gc.freeze()                 # keep the forked workers from touching (copying) the parent's heap
     pool = mp.Pool(16)
     try:
         s2, t2, tr2, o2, smp2, d2 = adaptive_part(ctx, rng, pool, 8 if thorough else 7)
+        s3, t3, xc, o3, smp3, d3, complete, caps = gate_part(ctx, ctx.seed, runs, pool)
     finally:
         pool.close()
         pool.join()
-    if thorough:
-        runs = [("gate_planned", 0.0, "planned", 24), ("gate_planned_origin_86400", 86400.0, "planned", 24),
-                ("gate_wide", 0.0, "wide", 11), ("gate_wide_origin_86400", 86400.0, "wide", 8)]
-    else:
-        runs = [("gate_planned", 0.0, "planned", 18), ("gate_wide", 0.0, "wide", 6)]
-    s3, t3, xc, o3, smp3, d3, complete, caps = gate_part(ctx, ctx.seed, runs)
+        gc.unfreeze()
     ctx.coverage.update(
         states=s1 + s2 + s3, transitions=t1 + t2 + t3, traces_validated_against_impl=tr1 + tr2 + t3,
         replay_crosschecks=xc, distinct_outcomes=len(o1) + len(o2) + len(o3), exhaustive=complete, caps=caps,
@@ -737,7 +752,7 @@ def run(ctx):
         "adaptive comparison tolerance 1e-12 (binary64 rounding of the implementation); delta bounds compared exactly",
         "gate keeper: all times are compared with 1 ns tolerance (the implementation's own rounding epsilon); inside +-1 ns of the "
         "reference opening time either answer is accepted and the reference follows the implementation; times are seconds from a "
-        "small origin (0 s, thorough also 86400 s) where binary64 resolves far below 1 ns - with unix-epoch magnitudes (ulp 238 ns) "
+        "small origin (0 s, thorough also 64 s) where binary64 resolves far below 1 ns - with unix-epoch magnitudes (ulp 238 ns) "
         "a 1 ns criterion is not meaningful",
         "GateKeeper.is_open() is side-effect free (asserted at every state), so the implementation's opening time is bracketed by "
         "probing is_open() 2 ns before/after the B.1/B.2 time without reading private fields",
